@@ -36,7 +36,7 @@ ASSUMPTIONS = (
     "an unreadable directory is silently skipped by os.walk; not alarmed on (see DESIGN.md 3.C01)",
 )
 
-KNOWN_IDS = set(G.VALID + G.DEPRECATED + G.EXCEPTIONS)
+KNOWN_IDS = set(G.VALID + G.DEPRECATED + G.EXCEPTIONS + ["CC-BY-4.0"])  # every SPDX identifier the generator can emit
 DEPRECATED = set(G.DEPRECATED)
 EXPRS = G.VALID + ["Apache-2.0+", "MIT OR 0BSD", "GPL-3.0-or-later WITH Classpath-exception-2.0",
                    "LicenseRef-Custom", "(MIT AND BSD-3-Clause)", "EUPL-1.2+"]
